@@ -52,12 +52,12 @@ CHECKS = {
     "C17": dict(level="fault_enumeration", engine="fakeredis+hooks",
         technique="crash sweep over every request prefix of each bookkeeping maintenance operation (real start-up bookkeeping and GC body through build-tag hooks); next start with the new configuration must find a position >= the one before, in the same DB",
         text="Checkpoint rename, re-key after failover (newOutput and SetRunId), bisync replay-mode switches (all six pairs, states produced by the real tool), stale-checkpoint GC at "
-             "five clock positions; 1-8 non-empty DBs, map-order sampling by repetition; exhaustive per observed request sequence. In-process re-key (SetRunId) additionally with each single request answered by an error once, followed by the tool's own retry.; entries of other replication ids must survive every stop point; GC tick overlapping a re-key after a failover; stale copy under a rename destination name Thorough tier: lost-reply sweep of the bisync format switch (one request executed, its connection closed before the reply, second attempt, next start).",
+             "five clock positions; 1-8 non-empty DBs, map-order sampling by repetition; exhaustive per observed request sequence. In-process re-key (SetRunId) additionally with each single request answered by an error once, followed by the tool's own retry.; entries of other replication ids must survive every stop point; GC tick overlapping a re-key after a failover; stale copy under a rename destination name Thorough tier: lost-reply sweep of the bisync format switch (one request executed, its connection closed before the reply, second attempt, next start). Both tiers: the same sweep on a cluster of one primary, whose client survives a lost reply (every non-DEL write, first/last/sampled DELs of the start-up bookkeeping; position found by the second attempt >= position a start under the old format finds).",
         design="DESIGN.md §3 C17", note=TRUST + "; HGETALL order of the double is sorted (ids constrained so both orders agree)"),
     "C19": dict(level="exploration", engine="fakeredis cluster role",
         technique="runtime monitor: globally ordered per-node effect logs of a multi-node cluster double (routing by independent HASH_SLOT, MIGRATING/IMPORTING/ASK/MOVED/TRYAGAIN semantics) under scripted migration schedules; per-key segment oracle + resume-position clause",
         text="Real RedisOutput with a cluster client against 3-5 node doubles; schedules: none, MOVED between/mid batch, ASK windows with existing/missing keys, back-and-forth, node added; "
-             "blocking/pipelined, transactional/non-transactional; slot-table refresh released between two Puts of one batch; two connection-fault schedules (reset mid-batch, connection lost before the first reply); writes with a legal null-bulk reply in every mode; schedule abandoned-node-worker (one node resets, another stalls until the restarted run has overtaken it). Two known findings (non-atomic node pipelines: the reported flavour, and the silent bounce inversion of the blocking non-transactional sender) are listed in known_findings.json. Order signatures carry the run outcome and, for acknowledged disorders, whether the sender's own batch retry repaired them (healed=in-run-retry).",
+             "blocking/pipelined, transactional/non-transactional; slot-table refresh released between two Puts of one batch; two connection-fault schedules (reset mid-batch, connection lost before the first reply); writes with a legal null-bulk reply in every mode; schedule abandoned-node-worker (one node resets, another stalls until the restarted run has overtaken it). Two known findings (non-atomic node pipelines: the reported flavour, and the silent bounce inversion of the blocking non-transactional sender) are listed in known_findings.json. Order signatures carry the run outcome and, for acknowledged disorders, whether the sender's own batch retry repaired them (healed=in-run-retry). Schedule cross-node-command: a two-key DEL/UNLINK/MSET whose keys are owned by two nodes (what a standalone source can send), alone in the sender's queue for three ticker periods or travelling with its neighbours: reported, never acknowledged with a position behind it.",
         design="DESIGN.md §3 C19", note="the double enforces 'executed by the owner'; slots from internal/ref.HashSlot; " + TRUST),
     "C05": dict(level="exploration", engine="chanmodel",
         technique="runtime monitor at the Channel boundary of both cache backends against a byte-by-offset model (PRF bytes identify their origin); sequential generated op histories + concurrent writer/readers/collector/pollers under the race detector with interval-bound checks",
@@ -81,7 +81,7 @@ CHECKS = {
         technique="runtime monitor over the ordered list of <runid>_offset writes observed at the target, idle-heavy feeding plans and restart sequences",
         text="Every value written to the resume-position field during base and resumed runs is checked against the generated stream's command-end "
              "offset table and for monotonicity across restarts; feeding plans idle before the first item longer than each ticker; a restart that "
-             "finds no usable position although one was stored is a violation. Cluster class: three-node cluster double, non-transactional replay (blocking and pipelined), position writes that arrive 4-25 ms late on their connection, judged in the order the cluster executed them.",
+             "finds no usable position although one was stored is a violation. Cluster class: three-node cluster double, non-transactional replay (blocking and pipelined), position writes that arrive 4-25 ms late on their connection, judged in the order the cluster executed them; one case in three is stopped in mid-traffic while a position write of the running replay is still on its way.",
         design="DESIGN.md §3 C07", note=TRUST),
     "C09": dict(level="fault_enumeration", engine="sweep",
         technique="runtime monitor: per-command target transaction ids vs source MULTI/EXEC groups, at every crash prefix and after restart",
@@ -97,7 +97,7 @@ CHECKS = {
     "C11": dict(level="exploration", engine="ref",
         technique="differential runtime oracle vs bit-wise CRC16/HASH_SLOT reference; exhaustive small-alphabet enumeration + PRNG keys",
         text="redis.KeyToSlot, cluster.GetSlot, FilterSlot decisions and every bisync control-key builder for all 16384 slot tags are compared with "
-             "an independent HASH_SLOT implementation validated against the spec's check values. The calling pattern of the checkpoint-key search: one buffer rewritten in place, candidates handed over as strings that alias it, sequentially and from eight goroutines.",
+             "an independent HASH_SLOT implementation validated against the spec's check values. The calling pattern of the checkpoint-key search: one buffer rewritten in place, candidates handed over as strings that alias it, sequentially and from eight goroutines. The slot-tag table's first use in the process comes from 16 goroutines at once.",
         design="DESIGN.md §3 C11", note="internal/ref.HashSlot is the specification (validated against published vectors)"),
     "C12": dict(level="exploration", engine="ref",
         technique="runtime oracle: decoder output and offsets vs generator's offset table under arbitrary buffering/fragmentation; encode/decode round trips",
